@@ -37,8 +37,8 @@ PROPS = {
         "modelled": CORE_MODELLED,
     },
     "C05": {
-        "quick": [("wrap", 12, 0), ("alloc", 300, 120), ("gc", 100, 120), ("fork", 150, 80), ("merge", 150, 0), ("script", 60, 12), ("scriptfault", 150, 6), ("ser", 30, 60), ("joinser", 40, 12)],
-        "thorough": [("wrap", 120, 0), ("joinser", 1000, 16), ("scriptfault", 3000, 8), ("alloc", 4000, 300), ("gc", 1000, 300), ("cycle", 140, 400), ("fork", 3000, 160), ("merge", 4000, 0), ("script", 1500, 16), ("ser", 300, 120)],
+        "quick": [("wrap", 12, 0), ("alloc", 300, 120), ("gc", 100, 120), ("fork", 150, 80), ("merge", 150, 0), ("mergemix", 150, 0), ("script", 60, 12), ("scriptfault", 150, 6), ("ser", 30, 60), ("joinser", 40, 12)],
+        "thorough": [("wrap", 120, 0), ("joinser", 1000, 16), ("scriptfault", 3000, 8), ("alloc", 4000, 300), ("gc", 1000, 300), ("cycle", 140, 400), ("fork", 3000, 160), ("merge", 4000, 0), ("mergemix", 4000, 0), ("script", 1500, 16), ("ser", 300, 120)],
         "rule": "allocator-heavy histories (explicit add ahead of and behind the position, collections freeing lower ids) and the fork profile (clones taken after a random prefix / after everything was read and collected / after allocator calls only / at once, then next_id on both copies), and reloaded graphs (the allocator restarts: the ids it hands out must still be absent); non-trivial = at least two next_id calls",
         "nontrivial": "nextids",
         "modelled": CORE_MODELLED,
